@@ -50,7 +50,19 @@ def canon_line(line):
 def canon_tokens(ev, scn, res, ci):
     subs = res.setdefault("_subs", canon_maps(scn, res))
     out = []
+    # an observer that unregisters ITSELF from inside its next callback (call kind R a a, placed right before this call):
+    # it is told that one event - the first of this call - and nothing further. The model is given remove_observer(a)
+    # before the call, so that single notification is taken out here; anything more stays in and shows as a difference.
+    selfrm = None
+    if ci > 0 and scn["calls"][ci - 1][0] == "R" and scn["calls"][ci - 1][1] == scn["calls"][ci - 1][2]:
+        selfrm = "O%d:" % scn["calls"][ci - 1][1]
+        first = next((t for t in ev if t.startswith("O")), None)
+        if first is None or not first.startswith(selfrm):
+            selfrm = None          # (not told at all, or not first: left as it is - a difference)
     for t in ev:
+        if selfrm and t.startswith(selfrm):
+            selfrm = None
+            continue
         if t.startswith("O"):
             f = t.split(":")
             if f[1] == "c":
@@ -577,7 +589,14 @@ def fam_observers(rng, n, dist):
             elif r < 0.5:
                 once = [o for o in b.observers if b.observers.count(o) == 1]
                 pairs = [(a, o) for a in once for o in once if b.observers.index(a) < b.observers.index(o)]
-                if pairs and rng.random() < 0.5:
+                if once and rng.random() < 0.3 and b.observers[0] in once:
+                    # ... or itself (the first registered, so that it is told first)
+                    a = b.observers[0]
+                    b.observers = [x for x in b.observers if x != a]
+                    b.add_call(("R", a, a), kind="-")
+                    add_simple(b, rng)
+                    dist.add("observer:removes-itself-from-inside-its-callback")
+                elif pairs and rng.random() < 0.5:
                     # an observer reacts to an event by unregistering another one: that one receives nothing further,
                     # not even the event being delivered
                     a, o = rng.choice(pairs)
@@ -1363,7 +1382,7 @@ PROPS = {
     "C02": dict(fam=[("mixed", 5), ("abor", 2), ("refusals", 1), ("tls", 1)], proj=["out", "state", "wire"], oracles=["lockstep"]),
     "C09": dict(fam=[("args", 4), ("mixed", 2), ("reconnect", 2)], proj=["out", "wire"], oracles=["commands"]),
     "C10": dict(fam=[("mixed", 6), ("args", 1), ("refusals", 1), ("tls", 2)], proj=["out", "state", "wire"], oracles=["commands", "state"]),
-    "C14": dict(fam=[("observers", 5), ("mixed", 2)], proj=["out", "obs"], oracles=["observers"]),
+    "C14": dict(fam=[("observers", 5), ("mixed", 2)], proj=["out", "obs"], oracles=["observers", "terminates"], variant="asan"),
     "C03": dict(fam=[("downloads", 6), ("mixed", 1), ("ascii", 1)], proj=["out", "io"], oracles=["transfers"]),
     "C04": dict(fam=[("uploads", 6), ("mixed", 1), ("ascii", 1)], proj=["out", "io", "wire"], oracles=["transfers"]),
     "C07": dict(fam=[("refusals", 6), ("mixed", 1)], proj=["out", "io", "held", "wire"], oracles=["transfers", "sockets", "lockstep"]),
